@@ -15,7 +15,7 @@ import re
 
 from ..core.tree import AnalysisError
 from ..core.constfold import Folder
-from ..core.astutil import walk_no_nested, call_name, short, src, closure_src, closure_nodes, resolve_local
+from ..core.astutil import walk_no_nested, call_name, short, src, closure_src, closure_nodes, resolve_local, calls_in_eval_order, resolve_callee
 from ..engines import regexlang as R
 from ..engines.regexuse import regex_uses
 from ..spec import hazards as H
@@ -44,39 +44,41 @@ def sami_decode(ctx, report):
     hd = ctx.index.get_function(SAMI, "SAMIParser.handle_data")
     for f in (he, hc, hd):
         report.covered(f)
-    name = he.params[1]
-    # pass-through list
-    tests = [n for n in walk_no_nested(he.node) if isinstance(n, ast.If) and isinstance(n.test, ast.Compare)
-             and isinstance(n.test.ops[0], ast.In) and src(n.test.left) == name]
-    if len(tests) != 1 or not isinstance(tests[0].test.comparators[0], (ast.List, ast.Tuple, ast.Set)):
-        raise AnalysisError("handle_entityref: pass-through list not found")
-    keep = sorted(e.value for e in tests[0].test.comparators[0].elts if isinstance(e, ast.Constant))
-    body_ok = any(isinstance(s, ast.AugAssign) and src(s.target) == "self.sami" and src(s.value) == f"f'&{{{name}}};'"
-                  for s in tests[0].body)
-    need = {"amp", "lt"}
-    report.check(need <= set(keep) and body_ok, "R-DECODE-ONCE", (he, tests[0]),
+    # the three handlers are folded (constant evaluation of their source) on a stub parser
+    from ..core.constfold import Folder, Stub
+    import html.entities
+    folder = ctx.memo("folder", lambda: Folder(ctx.index))
+    pcls = ctx.index.get_class(SAMI, "SAMIParser")
+    table = dict(html.entities.name2codepoint)
+    table.setdefault("apos", 0x27)
+
+    def run_handler(fn, arg):
+        stub = Stub("parser", {"sami": "", "name2codepoint": dict(table), "last_element": "x", "queue": [], "line": ""},
+                    cls=pcls)
+        try:
+            folder.call_function(fn, [arg], self_value=stub)
+        except AnalysisError as e:
+            raise AnalysisError(f"{fn.qualname} cannot be folded on {arg!r}: {e}")
+        return stub.attrs["sami"]
+    got = {n: run_handler(he, n) for n in ("amp", "lt", "gt", "nbsp", "eacute", "Eacute", "bogus")}
+    ok = got["amp"] == "&amp;" and got["lt"] == "&lt;" and got["gt"] in ("&gt;", ">")
+    report.check(ok, "R-DECODE-ONCE", he,
                  "named references of markup characters are handed to the second parser still encoded",
-                 {"passed_through_encoded": keep, "required_at_least": sorted(need),
+                 {"folded": {k: got[k] for k in ("amp", "lt", "gt")},
                   "why": "BeautifulSoup parses the re-serialised text again: a decoded '&' or '<' is markup there, so "
                          "'&amp;lt;' would read as '<'"}, "1")
-    rebinds = [n for n in walk_no_nested(he.node) if isinstance(n, (ast.Assign, ast.AugAssign)) and
-               src(n.targets[0] if isinstance(n, ast.Assign) else n.target) == name]
-    look = [n for n in walk_no_nested(he.node) if isinstance(n, ast.Subscript) and src(n.value) == "self.name2codepoint"]
-    ok = not rebinds and len(look) == 1 and src(look[0].slice) == name
+    ok = got["nbsp"] == "\xa0" and got["eacute"] == "\xe9" and got["Eacute"] == "\xc9" and got["bogus"].startswith("&bogus")
     report.check(ok, "R-VERBATIM-KEY", he, "the entity name is looked up exactly as written (entity names are case sensitive)",
-                 {"rebinding": [short(r) for r in rebinds], "lookup": [src(l) for l in look]}, "1")
-    # charref: everything appended to self.sami from a decoded number is escaped
-    appends = [n for n in walk_no_nested(hc.node) if isinstance(n, ast.AugAssign) and src(n.target) == "self.sami"]
-    if not appends:
-        raise AnalysisError("handle_charref: no append to self.sami")
-    bad = []
-    for a in appends:
-        v = src(resolve_local(hc, a.value))
-        if "chr(" in v and not re.match(r"escape\(", v):
-            bad.append(short(a))
+                 {"folded": {k: got[k] for k in ("nbsp", "eacute", "Eacute", "bogus")}}, "1")
+    # charref: a decoded number that denotes a markup character is re-encoded
+    gotc = {n: run_handler(hc, n) for n in ("38", "x26", "X26", "60", "x3c", "62", "233", "xE9", "65")}
+    bad = {k: v for k, v in gotc.items() if (k in ("38", "x26", "X26") and v != "&amp;") or (k in ("60", "x3c") and v != "&lt;")
+           or (k == "62" and v not in ("&gt;", ">")) or (k in ("233", "xE9") and v != "\xe9") or (k == "65" and v != "A")}
     report.check(not bad, "R-DECODE-ONCE", hc, "a decoded numeric reference is escaped before it is re-serialised",
-                 {"raw_appends": bad, "why": "&#38; / &#60; denote '&' and '<': appended raw they become markup for the "
-                                             "second parser ('&#38;lt;' reads as '<', '&#60;i&#62;' becomes an italics tag)"}, "1")
+                 {"folded": gotc, "wrong": bad, "why": "&#38; / &#60; denote '&' and '<': appended raw they become markup for the "
+                                                      "second parser ('&#38;lt;' reads as '<', '&#60;i&#62;' becomes an italics tag)"}, "1")
+    gd = run_handler(hd, "a &amp; <b")
+    report.check(gd == "a &amp; <b", "R-DECODE-ONCE", hd, "plain data is re-serialised verbatim", {"folded": gd}, "1")
     # handle_data passes the source text through unchanged (convert_charrefs is off)
     ok = any(isinstance(n, ast.AugAssign) and src(n.target) == "self.sami" and src(n.value) == hd.params[1]
              for n in walk_no_nested(hd.node))
@@ -90,29 +92,8 @@ def sami_decode(ctx, report):
 def webvtt_decode(ctx, report, folder):
     fn = ctx.index.get_function(VTT, "WebVTTReader._decode")
     report.covered(fn)
-    steps = []
-    for n in walk_no_nested(fn.node):
-        if isinstance(n, ast.Call) and isinstance(n.func, ast.Attribute) and n.func.attr == "replace" and len(n.args) == 2:
-            if all(isinstance(a, ast.Constant) for a in n.args):
-                steps.append((n.args[0].value, n.args[1].value))
-            else:
-                # a loop over a constant table
-                loop = None
-                for l in walk_no_nested(fn.node):
-                    if isinstance(l, ast.For) and n in list(walk_no_nested(l)):
-                        loop = l
-                if loop is None:
-                    raise AnalysisError("_decode: non-constant replace outside a table loop")
-                try:
-                    table = folder.eval_in(fn.module, loop.iter)
-                except AnalysisError as e:
-                    raise AnalysisError(f"_decode: replacement table cannot be folded: {e}")
-                pairs = list(table.items()) if isinstance(table, dict) else list(table)
-                names = [src(a) for a in n.args]
-                tnames = [src(e) for e in loop.target.elts] if isinstance(loop.target, ast.Tuple) else []
-                if names != tnames:
-                    raise AnalysisError("_decode: table loop shape not recognised")
-                steps.extend((a, b) for a, b in pairs)
+    from ..engines.strsteps import replace_steps
+    steps = [(a_, b_) for k, a_, b_, _ in replace_steps(fn, folder, "_decode") if k == "replace"]
     ents = [(a, b) for a, b in steps if isinstance(a, str) and a.startswith("&")]
     if len(ents) < 3:
         raise AnalysisError(f"_decode: only {len(ents)} entity replacements found (floor 3)")
@@ -127,11 +108,7 @@ def webvtt_decode(ctx, report, folder):
                  {"wrong": wrong, "missing": missing}, "1")
     # inverse of the writer's encoder on the hazard set
     enc = ctx.index.get_function(VTT, "WebVTTWriter._encode_illegal_characters")
-    esteps = []
-    for n in walk_no_nested(enc.node):
-        if isinstance(n, ast.Call) and isinstance(n.func, ast.Attribute) and n.func.attr == "replace" and len(n.args) == 2 \
-                and all(isinstance(a, ast.Constant) for a in n.args):
-            esteps.append((n.args[0].value, n.args[1].value))
+    esteps = [(a_, b_) for k, a_, b_, _ in replace_steps(enc, folder, "WebVTT encoder") if k == "replace"]
     bad = []
     for hazard in ("&", "<", "-->", "a&b<c-->d &lt; &amp;"):
         t = hazard
@@ -236,17 +213,27 @@ def webvtt_tags(ctx, report, folder):
     report.check(w3 is None, "R-LANG-EQ", where, "VOICE_SPAN_PATTERN == '<v' ('.' class)* ' ' annotation '>'",
                  {"witness": w3} if w3 else None, "3")
     dec = ctx.index.get_function(VTT, "WebVTTReader._decode")
-    subs = [n for n in walk_no_nested(dec.node) if isinstance(n, ast.Call) and isinstance(n.func, ast.Attribute)
-            and n.func.attr == "sub"]
+    from ..engines.strsteps import replace_steps
+    # every rewriting step of _decode and of the private helpers it calls, in execution order
+    allsteps = []
+    for k, a_, b_, n in replace_steps(dec, folder, "_decode"):
+        allsteps.append((k, a_, b_))
+    for c in calls_in_eval_order(dec.node):
+        h = resolve_callee(ctx.index, dec, c)
+        if h is not None and h is not dec and h.name.startswith("_"):
+            pos = [i for i, x in enumerate(calls_in_eval_order(dec.node)) if x is c][0]
+            sub_steps = [(k, a_, b_) for k, a_, b_, _ in replace_steps(h, folder, h.qualname)]
+            before = sum(1 for k, a_, b_, n in replace_steps(dec, folder, "_decode")
+                         if [i for i, x in enumerate(calls_in_eval_order(dec.node)) if x is n][0] < pos)
+            allsteps[before:before] = sub_steps
+            report.covered(h)
+    subs = [(a_, b_) for k, a_, b_ in allsteps if k == "sub"]
     if len(subs) < 2:
         raise AnalysisError(f"WebVTTReader._decode: expected two pattern substitutions, found {len(subs)}")
-    # (pattern constant, replacement) in application order; the name of the text variable is irrelevant
-    seq = [(src(n.func.value), src(n.args[0]) if n.args else None) for n in subs[:2]]
-    ok = seq == [("VOICE_SPAN_PATTERN", "'\\\\2: '"), ("OTHER_SPAN_PATTERN", "''")]
-    report.check(ok, "R-ORDER", dec, "voice spans become 'Name: ' before the remaining tags are stripped", [src(n) for n in subs], "3")
+    ok = subs[:2] == [("VOICE_SPAN_PATTERN", "'\\\\2: '"), ("OTHER_SPAN_PATTERN", "''")]
+    report.check(ok, "R-ORDER", dec, "voice spans become 'Name: ' before the remaining tags are stripped", subs, "3")
     # ... and references are decoded only AFTER the tags are gone: '&lt;i&gt;' is the text '<i>', not a tag
-    order = [("sub" if n.func.attr == "sub" else "replace") for n in walk_no_nested(dec.node)
-             if isinstance(n, ast.Call) and isinstance(n.func, ast.Attribute) and n.func.attr in ("sub", "replace")]
+    order = [k for k, a_, b_ in allsteps]
     if "replace" not in order:
         raise AnalysisError("WebVTTReader._decode: no reference replacement found")
     ok = order.index("replace") > max(i for i, k in enumerate(order) if k == "sub")
